@@ -6,7 +6,8 @@ WORKERS = min(int(os.environ.get("VERIF_WORKERS", "8")), 8)
 JOBS = min(int(os.environ.get("VERIF_JOBS", "12")), 12)
 
 GEN = """SPECIFICATION {spec}
-CONSTANTS Tenants = {{"t1"}}
+CONSTANTS Tenants = {tenants}
+          Main = "t1"
           Procs = {procs}
           Unlimited = 1000000
           LegacyUpdates = {legacy_updates}
@@ -32,7 +33,11 @@ INVARIANTS TypeOK {invs}
 CHECK_DEADLOCK FALSE
 """
 
-DEFAULTS = dict(spec="Spec", procs="{1}", legacy_updates="FALSE", legacy_recover="FALSE", race="FALSE", mode="seq",
+# the writers' tenant "t1" with two registered neighbours whose ids extend it by a character sorting below / above the
+# key separator ':' ("t10:..." < "t1:..." < "t1z:..."): scans, recovery and counters of one tenant next to the others' keys
+SIBLINGS = '{"t1", "t10", "t1z"}'
+
+DEFAULTS = dict(tenants='{"t1"}', spec="Spec", procs="{1}", legacy_updates="FALSE", legacy_recover="FALSE", race="FALSE", mode="seq",
                 maxops=3, maxhist=9, nodeids="{1, 2}", labels="LS2", ends="Ends1", quotas="{1}", kinds='{"n"}',
                 crash="TRUE", view="VIEW ViewSeq", constraint="CONSTRAINT Bound", emit="", invs="", props="")
 
@@ -44,7 +49,7 @@ def gen(**kw):
 
 
 TRACE = """SPECIFICATION TSpec
-CONSTANTS Tenants = {{"t1"}}
+CONSTANTS Tenants = {{"t1", "t10", "t1z"}}
           Procs = {{1, 2, 3}}
           Unlimited = 1000000
           LegacyUpdates = FALSE
@@ -94,7 +99,11 @@ def corrupt_recover(ev, rng):
 def corrupt_conc(ev, rng):
     """change a bound observation of a concurrent run: stored ids after a step, or counters at quiescence / recovery"""
     k = ev.get("ev")
-    if k in ("Quiesce", "Recover") and "obs" in ev:
+    if k == "Quiesce" and "obs" in ev:
+        per = ev["obs"]["per"]
+        per[rng.randrange(len(per))]["un"] += 1
+        return True
+    if k == "Recover" and "obs" in ev:
         ev["obs"]["un"] += 1
         return True
     if k == "Step" and "obs" in ev:
